@@ -1704,6 +1704,20 @@ private theorem mapM_option_mem {α β : Type} (f : α → Option β) (l : List 
         · obtain ⟨x, hx, hfx⟩ := ih bs hl y hy
           exact ⟨x, List.mem_cons_of_mem _ hx, hfx⟩
 
+private theorem inj_of_nodup_map {α β : Type} (f : α → β) {l : List α} (hn : (l.map f).Nodup) {a b : α}
+    (ha : a ∈ l) (hb : b ∈ l) (h : f a = f b) : a = b := by
+  induction l with
+  | nil => simp at ha
+  | cons c l ih =>
+    simp only [List.map_cons, List.nodup_cons] at hn
+    rcases List.mem_cons.mp ha with ha' | ha'
+    · rcases List.mem_cons.mp hb with hb' | hb'
+      · rw [ha', hb']
+      · exact absurd (List.mem_map.mpr ⟨b, hb', by rw [← h, ha']⟩) hn.1
+    · rcases List.mem_cons.mp hb with hb' | hb'
+      · exact absurd (List.mem_map.mpr ⟨a, ha', by rw [h, hb']⟩) hn.1
+      · exact ih hn.2 ha' hb'
+
 open ScyllaVerif.Drive.Topology in
 private theorem parseStrategy_nts_keys {w : String} {repf : List (Nat × Nat)} (h : parseStrategy w = some (.nts repf)) :
     (repf.map (·.1)).Nodup := by
@@ -1743,7 +1757,8 @@ theorem mkCluster_WF {topo kss : String} {ps : List (Peer × String)} {ks : List
     · cases h1; exact List.nodup_nil
     · split at h1
       · cases h1
-      · split at h1
+      · simp only [] at h1
+        split at h1
         · rename_i hc
           cases h1
           simp only [Bool.and_eq_true, beq_iff_eq] at hc
@@ -1753,7 +1768,7 @@ theorem mkCluster_WF {topo kss : String} {ps : List (Peer × String)} {ks : List
   · intro repf hmem
     unfold parseStrategies at h2
     split at h2
-    · cases h2; simp at hmem
+    · cases h2; cases hmem
     · obtain ⟨w, _, hw⟩ := mapM_option_mem _ _ _ h2 _ hmem
       exact parseStrategy_nts_keys hw
   · -- ring nodes are nodes of peers; peers have distinct ids
@@ -1771,7 +1786,7 @@ theorem mkCluster_WF {topo kss : String} {ps : List (Peer × String)} {ks : List
     intro a ha b hb hab
     obtain ⟨p, hp, rfl⟩ := hnode a ha
     obtain ⟨q, hq, rfl⟩ := hnode b hb
-    have : p = q := List.inj_on_of_nodup_map hids hp hq hab
+    have : p = q := inj_of_nodup_map (fun x : Peer × String => x.1.node.id) hids hp hq hab
     rw [this]
 
 /-! ### non-vacuity: the suite's 7-node, 2-datacenter ring with vnodes; node 2 down, node 7 disabled -/
